@@ -165,7 +165,7 @@ Definition to_checked_array (declared : adt) (i : item) : res (list row) :=
    as the `pinned` behaviour, about which the `_refuted` theorems speak), true = the repaired code.
    REPAIRED_F1F2 says which of the two /repo currently carries; the un-suffixed definitions
    (fix_output_single, down_one, ...) are the model of the current code. *)
-Definition REPAIRED_F1F2 : bool := false.
+Definition REPAIRED_F1F2 : bool := true.   (* /repo carries 312d850 (F1) and b7d8cdd (F2) *)
 
 (* Plugin._fix_output for one data type (the part after the multi-output dispatch).
    range = Some (start, end) for plugins with dependencies, None for sources. *)
